@@ -24,7 +24,8 @@ RULE = ('Case = 1-3 open streams; per stream a device script (k WRTEs of 1-6 byt
         'every call with a timeout returns within it (+ polling slack); calls without timeout: the scheduler proves termination - '
         'a thread left waiting although its data was delivered (lost wake-up) or a wait-for cycle is reported with the thread '
         'states.  Non-trivial = >=2 streams with interleaved WRTEs, or reader+writer on one stream, with >=1 effective preemption; '
-        'distinct by (case, plan).')
+        'distinct by (case, plan).  Plus an enumerated part: the device never acknowledges a WRTE; write() gives up by its timeout and '
+        'no further WRTE goes out on that stream, other streams unaffected.')
 ASSUMPTIONS = ['The USB transport is a scripted fake; payloads are latin-1 str.',
                'Preemption at source-line / primitive granularity only.']
 
